@@ -464,10 +464,10 @@ int main(int argc, char **argv) {
             unsigned long long next = a;
             while (next < b) {
                 if (!vf_sh) vf_sh = mmap(NULL, sizeof *vf_sh, PROT_READ | PROT_WRITE, MAP_SHARED | MAP_ANONYMOUS, -1, 0);
-                vf_sh->cur = (long)next; vf_sh->done = 0; vf_sh->where[0] = 0; fflush(NULL);
+                vf_sh->cur = (long)next; vf_sh->done = 0; vf_sh->where[0] = 0; fflush(NULL); vf_err_prepare();
                 pid_t pid = fork();
                 if (pid == 0) {
-                    signal(SIGALRM, vf_alarm); vf_install_fault_handlers();
+                    vf_err_child(); signal(SIGALRM, vf_alarm); vf_install_fault_handlers();
                     for (unsigned long long i = next; i < b; i++) { vf_sh->cur = (long)i; vf_case_timer(timeout); case_fn((long)i, NULL); G->resume_cfg = 0; G->resumes = 0; }
                     vf_sh->done = 1; fflush(NULL); _exit(0);
                 }
